@@ -3,6 +3,8 @@
 # (the prompt contains only the property text and the worktree path; nothing from /verif)
 import json, os, subprocess, sys
 THEMES = {
+ "sync": "ADDITIONAL CONSTRAINT FOR THIS ROUND: the defect must live ONLY in a sync flavour (sync_digraph or sync_ungraph) and concern LOCKING: a guard (RwLock read/write) that is kept alive across a call that locks another node or the same node again, a lock taken in a different order, a read guard where a write is needed behind an upgrade, a temporary that now lives to the end of the statement, an iterator that holds a guard across the loop body. In ordinary single-threaded use with distinct nodes it must behave exactly like the original; it only shows for particular shapes (self-loops, a node that is its own neighbour's neighbour, an operation called from inside a closure or loop body) or particular two-thread interleavings.",
+ "two": "ADDITIONAL CONSTRAINT FOR THIS ROUND: the defect must consist of TWO cooperating edits in different functions (or files), each of which is harmless on its own (the library with only one of them applied satisfies the property); only together do they break it. Explain in meta.json why each alone is harmless.",
  "state": "ADDITIONAL CONSTRAINT FOR THIS ROUND: the defect must come from HIDDEN STATE that survives between calls: a cached length / degree / lookup result / visited set / last-found neighbour / sorted flag / memoised answer stored in the node, the adjacency, the container or the search object, which is not (or not always) invalidated when the graph changes or when the same object is used again. The first use on a fresh structure must behave exactly like the original; only a later call, after particular mutations in between, gives a wrong answer.",
  "order": "ADDITIONAL CONSTRAINT FOR THIS ROUND: the defect must change an ORDER that the property pins down (relative order of a node's edges, order of edges in a path, order of nodes in an ordering, listed order in macros, order after a round trip, which of several parallel edges is removed or returned first) while leaving every SET or COUNT unchanged — so that a check comparing sorted or counted results cannot see it.",
  "boundary": "ADDITIONAL CONSTRAINT FOR THIS ROUND: the defect must be an OFF-BY-ONE or boundary slip: the first or last element of a list (first edge of a node, last edge of a path, last member, last listed edge of a macro, last element of a document), a path of exactly one edge, a cycle of length one or two, index 0 versus index len-1, an empty prefix or suffix. Everything away from the boundary must behave exactly like the original.",
